@@ -25,8 +25,19 @@ def _set(root: Any, path: Path, value: Any) -> Any:
     return root
 
 
+def _atomic(node: Any) -> bool:
+    """An invariant of a generated spec (vlib.mmgen.Inv as JSON): its text and the tags that describe the text to
+    the reference oracles belong together - it may be dropped as a whole, never edited inside."""
+    if not isinstance(node, dict):
+        return False
+    # ... likewise a pattern function (pattern, the source lines spelling it, strings known to match)
+    return ("body" in node and "tags" in node) or ("pattern_lines" in node and "pattern" in node)
+
+
 def _paths(node: Any, prefix: Path = ()) -> List[Path]:
     out = [prefix]
+    if _atomic(node):
+        return [] if prefix else out
     if isinstance(node, list):
         for i, x in enumerate(node):
             out.extend(_paths(x, prefix + (i,)))
